@@ -74,4 +74,16 @@ def executor(flavour="on", **kw):
     ex = Executor(funcs, defs, overflow_checks=(flavour == "on"), **kw)
     ex.mir_path = path
     ex.flavour = flavour
+    import z3
+
+    def bitstr_inv(origin):
+        # range.start <= range.end, and positions small enough that byte/bit conversions cannot wrap
+        st, en = z3.BitVec(origin + ".0.0", 64), z3.BitVec(origin + ".0.1", 64)
+        return [z3.ULE(st, en), z3.ULE(en, z3.BitVecVal(1 << 60, 64))]
+    ex.tc.invariants["Bitstr"] = bitstr_inv
+
+    def withtag_inv(origin):
+        # Cell::with_tags always stores value().clone(): the wrapped value is never itself a wrapper
+        return [z3.BitVec(origin + ".1.discr", 64) != z3.BitVecVal(10, 64)]
+    ex.tc.invariants["WithTag"] = withtag_inv
     return ex
